@@ -409,7 +409,7 @@ def run_shards(c, exe, shards, env=None, cpu_limit=600, timeout=3600, what='driv
         return args, r.returncode, r.stdout.decode('latin1'), r.stderr.decode('latin1')
     results = pmap(one, shards, workers)
     for args, rc, out, err in results:
-        tag = '%s %s' % (os.path.basename(exe), ' '.join(str(a) for a in args))
+        tag = '%s %s' % (os.path.basename(exe), ' '.join(str(a) for a in args[:5])) + (' ...' if len(args) > 5 else '')
         got_eval = False
         for line in out.splitlines():
             if line.startswith('VIOL '):
